@@ -152,6 +152,20 @@ def setTarget (F : FlagSet) (setFuel : Bool) (b : TBlock) : TargetRes :=
        | some i => .target i
        | none => .error)
 
+/-- `ExpansionData._setTargetComponents` for a whole assembly: the target of every block, computed by a NEW
+`ExpansionData` from the blocks as they are now (the instance starts with an empty
+`_componentDeterminesBlockHeight`; nothing else enters) -/
+def setTargets (F : FlagSet) (setFuel : Bool) (a : List TBlock) : List TargetRes := a.map (setTarget F setFuel)
+
+/-- `Block.setAxialExpTargetComp(c)` / assignment of `b.p.axialExpTargetComponent`: child `i` is designated -/
+def designate (b : TBlock) (i : Nat) : TBlock := { b with explicit := some (some i) }
+
+/-- `isTargetComponent` on a new `ExpansionData`: child `i` of block `ib` is a target iff it is the block's choice -/
+def isTarget (F : FlagSet) (setFuel : Bool) (a : List TBlock) (ib i : Nat) : Bool :=
+  match (setTargets F setFuel a)[ib]? with
+  | some (.target j) => i == j
+  | _ => false
+
 /-! ### the linkage hypothesis of target-mass conservation, on the modelled linkage -/
 
 /-- index (among the lower block's solids) of the lower link of solid `ic` of block `ib`; `none` when there is
